@@ -16,7 +16,18 @@ HERE = os.path.dirname(os.path.abspath(__file__))
 VERIF = os.path.dirname(HERE)
 BUILD = os.path.join(VERIF, '.build')
 HARNESS = os.path.join(VERIF, 'harness')
-REPO = '/repo'
+REPO = os.environ.get('VERIF_REPO', '/repo')
+if os.path.realpath(REPO) != '/repo':
+    # background / scratch runs against a snapshot of the repository: a private copy of the harness crate whose
+    # path dependency points at the snapshot (MANIFEST commands never set VERIF_REPO: they check /repo itself)
+    _h = os.path.join(BUILD, 'harness-' + hashlib.sha1(os.path.realpath(REPO).encode()).hexdigest()[:8])
+    if os.path.isdir(_h):
+        shutil.rmtree(_h)
+    shutil.copytree(HARNESS, _h, ignore=shutil.ignore_patterns('target'))
+    _t = open(os.path.join(_h, 'Cargo.toml')).read().replace('path = "/repo"', 'path = "%s"' % os.path.realpath(REPO))
+    open(os.path.join(_h, 'Cargo.toml'), 'w').write(_t)
+    HARNESS = _h
+    BUILD = os.path.join(BUILD, 'alt-' + os.path.basename(_h))
 sys.path.insert(0, HERE)
 import ll2c  # noqa: E402
 
